@@ -84,6 +84,17 @@ def run(ck):
                       "strat": strat, "gran": "line" if i % 5 == 0 else "sync",
                       "facts": {"flavour": fl}})
     ck.run_and_validate(tasks, TRACE)
+    # directed two-preemption sweeps: a submission with an earlier deadline lands while the timeout thread is between
+    # its partition, the computation of its sleep time and the wait (a third thread's submission keeps it awake)
+    from .. import core as _core
+    pp = {"flavour": "manual", "jobs": [{"T": 2000, "S": 0, "D": 0, "C": True}, {"T": 300, "S": 100, "D": 0, "C": True},
+                                        {"T": 1500, "S": 100, "D": 0, "C": False}], "horizon": 4000}
+    swept = _core.phase_tasks("timeout", pp, [("TimeoutExecutor-t", "sub2"), ("sub2", "TimeoutExecutor-t")],
+                              range(1, 50, 4 if quick else 1), range(1, 30, 5 if quick else 1),
+                              prefix=[["sub3", 10000]])
+    swept += _core.phase_tasks("timeout", pp, [("sub2", "sub3"), ("TimeoutExecutor-t", "sub3")],
+                               range(1, 40, 5 if quick else 1), range(1, 30, 6 if quick else 1))
+    ck.run_and_validate(swept, TRACE, nontrivial=lambda t, r: True)
     ck.assumptions += [
         "virtual time: timers fire one tick late, time advances only when no thread can run",
         "deadline bounds taken from SubmitCall/SubmitRet times; EPS = 2 ticks per wake-up",
